@@ -8,7 +8,7 @@ MANIFEST = dict(
    note="Trusted: Lean kernel; axioms propext/Classical.choice/Quot.sound only; the translator (regexp/syntax AST -> Lean term; validated by comparing Re.accepts with Go regexp on every generated case); the specification automata in Model/FormatSpec.lean as the reading of the documented formats; Go regexp semantics as the reading of a JSON-Schema pattern. Parser-based validators (netip.ParseAddr/ParsePrefix, time.Parse) are modelled by hand transcription (netip: by the definition itself) validated on generated cases and tied by a go/ast structure fingerprint of the validator functions; time.Parse(RFC3339) has no all-strings theorem. IPv6 family on strings with '.' or '%': two independent readings of RFC 4291 (automaton and list-based) vs the library on generated cases.",
    design="DESIGN.md §5 C20; notes/C20.md")
 
-MODULES = ["Gozod.Proofs.C20", "Gozod.Proofs.C20DateTime", "Gozod.Proofs.C20Parsers", "Gozod.Proofs.C20Rfc3339", "Gozod.Proofs.C20V6Dot", "Gozod.Proofs.C20Base64URL"]
+MODULES = ["Gozod.Proofs.C20", "Gozod.Proofs.C20DateTime", "Gozod.Proofs.C20Parsers", "Gozod.Proofs.C20Rfc3339", "Gozod.Proofs.C20V6Dot", "Gozod.Proofs.C20Base64URL", "Gozod.Proofs.C20Netip"]
 REGEX_FORMATS = ["ipv4", "hex", "e164", "mac", "macdash", "base64", "uuid", "uuidv4", "uuidv6", "uuidv7", "guid"]
 OPTION_JOBS = ["macdot"] + ["tmo_" + p for p in "nm01239"]
 DTO = ["%s_%s_%s" % (p, o, l) for p in "nm01239" for o in "01" for l in "01"]   # IsoDateTime(options): precision x offset x local
@@ -37,7 +37,10 @@ THEOREMS = (["Gozod.C20.bisim_sound", "Gozod.C20.bisim_sound_full"]
     + ["Gozod.C20.ipv6_octet_quot", "Gozod.C20.cidrv6_octet_quot", "Gozod.C20.c20_ipv6_pattern_nozone", "Gozod.C20.c20_cidrv6_pattern_nozone",
        "Gozod.C20.c20_ipv6_defects_excluded", "Gozod.C20.run_false_of_foreign", "Gozod.C20.c20_ipv6_pattern_partial_all", "Gozod.C20.c20_cidrv6_pattern_partial_all"]
     # validator side of Base64URL: pattern AND the length rule = RFC 4648 §5, all strings
-    + ["Gozod.C20.run_inv", "Gozod.C20.base64url_len", "Gozod.C20.badLen_len", "Gozod.C20.c20_base64url"])
+    + ["Gozod.C20.run_inv", "Gozod.C20.base64url_len", "Gozod.C20.badLen_len", "Gozod.C20.c20_base64url"]
+    # validator side of CIDRv4: netip.ParsePrefix / ParseAddr / parseIPv4Fields / strconv.Atoi transcribed from the Go source = the definition, all strings
+    + ["Gozod.C20.ipv4Fields_run", "Gozod.C20.addrKind_of_run", "Gozod.C20.parseAddrIs4_run", "Gozod.C20.prefixBits_run", "Gozod.C20.cidr_split",
+       "Gozod.C20.c20_cidrv4_netip"])
 
 # certificate job -> format name of the correspondence
 JOB_FORMAT = {"isodatetime_optsec": "isodatetime", "isodatetime_partial": "isodatetime", "base64url_partial": "base64url",
